@@ -505,6 +505,13 @@ func c08Parsers(c *ctxT) {
 	}())
 	node := kademlia.NewDHTNode(kademlia.DHTNodeParams{LocalID: p2p.PeerID{1, 2, 3}, PeerCacheSize: 32, DataCacheSize: 8})
 	node0 := kademlia.NewDHTNode(kademlia.DHTNodeParams{LocalID: p2p.PeerID{9}, PeerCacheSize: 0, DataCacheSize: 0})
+	for _, n := range []int{44, 45, 46, 47, 48, 60, 64, 86, 100, 172, 1000} {
+		long := bytes.Repeat([]byte{p2p.Base64Alphabet[r.Intn(64)]}, n)
+		withAt := append(append([]byte{}, long...), []byte("@5")...)
+		run("peerid", long, func() { var id p2p.PeerID; _ = id.UnmarshalText(long) })
+		run("ke-addr", withAt, func() { _, _ = p2pkeswarm.ParseAddr[memswarm.Addr](memParse, withAt) })
+		run("quic-addr", withAt, func() { _, _ = quicswarm.ParseAddr[memswarm.Addr](memParse, withAt) })
+	}
 	for i := 0; i < c.scale(1500, 40000); i++ {
 		t := genText()
 		switch i % 10 {
